@@ -65,19 +65,24 @@ class AdaByronAddrConst:
     PAYLOAD_TAG: int = 24
 
 
-def _CborLoadsExact(data_bytes: bytes) -> Any:
+def _CborLoadsExact(data_bytes: bytes,
+                    expected_major_type: int) -> Any:
     """
     Decode CBOR bytes that shall consist of exactly one item (cbor2.loads ignores what follows the first item).
 
     Args:
-        data_bytes (bytes): Data bytes
+        data_bytes (bytes)       : Data bytes
+        expected_major_type (int): Expected CBOR major type of the item
 
     Returns:
         Any: Decoded object
 
     Raises:
-        ValueError: If some bytes follow the item
+        ValueError: If the item is not of the expected major type or some bytes follow it
     """
+    # The item shall be encoded as such: cbor2 silently unwraps some tags (e.g. the self-described CBOR tag 55799)
+    if len(data_bytes) == 0 or (data_bytes[0] >> 5) != expected_major_type:
+        raise ValueError("Invalid CBOR encoding (unexpected item type)")
     with BytesIO(data_bytes) as fp:
         obj = cbor2.load(fp)
         if fp.read(1) != b"":
@@ -161,7 +166,7 @@ class _AdaByronAddrAttrs(NamedTuple):
                 or (len(attrs_dict) != 0 and 1 not in attrs_dict and 2 not in attrs_dict)
                 or not all(isinstance(attr_val, bytes) for attr_val in attrs_dict.values())):
             raise ValueError("Invalid address attributes")
-        hd_path_enc_bytes = _CborLoadsExact(attrs_dict[1]) if 1 in attrs_dict else None
+        hd_path_enc_bytes = _CborLoadsExact(attrs_dict[1], 2) if 1 in attrs_dict else None
         # The encrypted HD path shall be a byte string
         if 1 in attrs_dict and not isinstance(hd_path_enc_bytes, bytes):
             raise ValueError("Invalid address attributes")
@@ -244,7 +249,7 @@ class _AdaByronAddrPayload(NamedTuple):
         Raises:
             ValueError: If the serialization is not valid
         """
-        addr_payload: Tuple[bytes, Dict[int, bytes], int] = _CborLoadsExact(ser_payload_bytes)  # type: ignore [assignment]
+        addr_payload: Tuple[bytes, Dict[int, bytes], int] = _CborLoadsExact(ser_payload_bytes, 4)  # type: ignore [assignment]
         if (not isinstance(addr_payload, (list, tuple))
                 or len(addr_payload) != 3
                 or not isinstance(addr_payload[0], bytes)
@@ -322,7 +327,7 @@ class _AdaByronAddr(NamedTuple):
         Raises:
             ValueError: If the serialization is not valid
         """
-        addr_bytes: Tuple[cbor2.CBORTag, int] = _CborLoadsExact(ser_addr_bytes)     # type: ignore [assignment]
+        addr_bytes: Tuple[cbor2.CBORTag, int] = _CborLoadsExact(ser_addr_bytes, 4)     # type: ignore [assignment]
         if (not isinstance(addr_bytes, (list, tuple))
                 or len(addr_bytes) != 2
                 or not isinstance(addr_bytes[0], cbor2.CBORTag)
